@@ -28,7 +28,11 @@ RULE = ('(a) get_pattern_context(p, i) for every string p over {a, LF, CR} up to
         '(b) every SelectorSyntaxError raised by malformed / truncated selectors: line, col and context must equal the '
         'oracle at the offset the message names, and the offset must lie inside the pattern; (c) pretty(repr) of compiled '
         'selectors (negative An+B, regex flags, nested lists) and of random token soups under a 5 s alarm: terminates and '
-        'equals the input up to whitespace, and equals the Lean model; (d) DEBUG vs non-DEBUG compile give equal selectors. '
+        'equals the input up to whitespace, and equals the Lean model; (d) compile + select with flags=0 and flags=DEBUG give the same '
+        'selectors and elements or the same exception (type, message, line, column, context) on valid selectors, spliced selectors, and '
+        'texts with several mistakes of different kinds (token order / unknown names / unbalanced brackets mixed with untokenizable text) '
+        'over several lines, alone and with custom-selector tables whose texts are themselves valid, wrong or mutually referring; every '
+        'error raised there is also checked as in (b) against the pattern or the custom text it belongs to. '
         'Non-trivial (a/b) = multi-line pattern with the offset beyond the first line.')
 
 
@@ -63,6 +67,131 @@ def caret_ok(ctx, p, i, line, col):
                 want.append(' ' * (4 + col - 1 - (1 if in_crlf else 0)) + '^')
         return rows == want
     return rows == [p, ' ' * (col - 1) + '^']
+
+
+# ---------------------------------------------------------------------------------------------
+# (d) inputs: patterns with SEVERAL mistakes of different kinds, custom selectors, both flag values
+# ---------------------------------------------------------------------------------------------
+# Every token of these is well formed; the selector is wrong because of what the tokens say or where they stand
+# (unknown pseudo-class, pseudo-element, at-rule, doubled / leading / trailing combinator, empty list slot,
+# type selector after other simple selectors, unbalanced parenthesis, undefined custom selector).
+ORDER_MISTAKES = [':nope', ':nope(a)', ':first-child(a)', ':not', ':nth-child', '::before', 'p::first-line', '::a', '@media x', '@import',
+                  '> >', '+ ~', '> ,', ',,', ', ,', ',', ')', 'a)', '.a*', '[x]p', '#i|p', ':root div|*', ':--missing', ':--Missing',
+                  ':is(', ':not(a', ':has(', ':has()', ':has(a,)', ':has(> )', ':not(,a', ':nth-child(2n of )', ':nth-child(2n of', '>', '~ a', 'a +',
+                  ':is(a > )', ':where(> a)', ':is(a))', ':root(', ':checked(a)', ':-soup-contains', ':lang', ':dir']
+# No token matches at some offset (a character outside the grammar, or a construct cut short / spelled wrongly).
+TOKEN_MISTAKES = ['$', '!', '%', '{', '}', '/', '=', '"', "'", '"a', '^', '<', '?', '[', '[a', '[a=', '[a="b]', '[a=b c]', '[=b]', '[a~b]', '[a b]',
+                  '.', '..a', '.1', '. a', '#', '#.', '# a', '##', ':', ': a', ':(', ':)', ':nth-child(x)', ':nth-child(2n+)', ':nth-child(n',
+                  ':nth-of-type(2n of a)', ':lang(', ':lang(a', ':lang(a b)', ':dir(up)', ':dir(', ':-soup-contains(', ':-soup-contains(a',
+                  ':contains(a b)', '/* open', '\\', 'a|', '||a', '*|', '1a', '9', '-', '--', '\\\n', ':--', ':-- a', ';', '(', 'a(']
+WRAPPERS = [':is(', ':not(', ':where(', ':matches(', ':has(', ':has(> ', ':has(+ ', ':nth-child(2n+1 of ', ':nth-last-child(-n+3 of ', ':any(',
+            ':nth-of-type(', ':-soup-contains(', ':lang(']
+JOINERS = [' ', ' ', ', ', ',', ' > ', '>', ' + ', ' ~ ', '\n', '\r\n', '\r', ',\n', ' ,\r\n ', '', '', '  ', '\t', ' /* c */ ', '/**/', '\n\n', '\f']
+CUSTOM_NAMES = [':--c0', ':--c1', ':--c2']
+
+
+def g_piece(rng, depth, names):
+    x = rng.random()
+    if x < 0.26:
+        return spell.render(spell.g_complex(rng, 2), rng, 1) if rng.random() < 0.5 else gen.gen_list(rng, 2, {'nth': True}, 1)
+    if x < 0.50:
+        return rng.choice(ORDER_MISTAKES)
+    if x < 0.74:
+        return rng.choice(TOKEN_MISTAKES)
+    if x < (0.92 if names else 0.82):
+        return rng.choice(names + [':--missing']) if names else rng.choice(['a', '*', '.b', '#c', '&', ':root'])
+    if depth < 2:
+        return rng.choice(WRAPPERS) + g_mixed(rng, depth + 1, names, rng.choice([1, 1, 2, 3])) + (')' if rng.random() < 0.75 else '')
+    return rng.choice(['a', 'b.c', '*'])
+
+
+def g_mixed(rng, depth=0, names=(), n=None):
+    """A selector text assembled from valid parts and wrong parts of both kinds, in random order, over several lines."""
+    names = list(names)
+    n = n or rng.choice([1, 2, 2, 3, 3, 4, 5])
+    out = [rng.choice(['', '', ' ', '\n', '/* c */'])]
+    for k in range(n):
+        if k:
+            out.append(rng.choice(JOINERS))
+        out.append(g_piece(rng, depth, names))
+    out.append(rng.choice(['', '', '', ' ', '\n', '\r\n']))
+    return ''.join(out)
+
+
+def g_custom(rng):
+    """A custom-selector table whose texts are valid, wrong, or refer to one another (also cyclically)."""
+    names = CUSTOM_NAMES[:rng.randint(1, len(CUSTOM_NAMES))]
+    custom = {}
+    for nm in names:
+        x = rng.random()
+        if x < 0.35:
+            custom[nm] = rng.choice(['p, span', 'div > p', ':is(a, b)', '.x:not(#y)', 'a[href]', 'p:nth-child(-n+2)', ':has(> p)\n, span'])
+        elif x < 0.5:
+            custom[nm] = rng.choice(['', ' ', ', '.join(names), 'a ' + rng.choice(names), rng.choice(names) + ':--missing'])
+        else:
+            custom[nm] = g_mixed(rng, 1, names, rng.choice([1, 2, 3]))
+    return custom
+
+
+DEBUG_DOC = ('<html><head><title>t</title></head><body><div id="d1" class="x c"><p id="p1" class="a">one</p><p id="p2" class="b" lang="de-DE">two</p>'
+             '<span id="s1" title="t" x="y">s<a id="a0" href="#h">in</a></span></div><div id="d2"><a id="a1" href="http://e/">l</a>'
+             '<input id="i1" type="checkbox" checked><input id="i2" type="number" min="1" max="3" value="5"><b id="b1" class="c"></b></div></body></html>')
+_debug_soup = []
+
+
+def debug_outcome(pattern, custom, flags):
+    """Everything a caller can observe of compile(pattern, custom=…, flags=…) followed by select(): the compiled selector list and the
+    elements selected, or the exception with type, message, line, column and context.  The DEBUG trace itself (stdout) is not a result."""
+    if not _debug_soup:
+        import bs4
+        _debug_soup.append(bs4.BeautifulSoup(DEBUG_DOC, 'html.parser'))
+    buf = io.StringIO()
+    exc = None
+    with contextlib.redirect_stdout(buf):
+        try:
+            c = sv.compile(pattern, custom=dict(custom) if custom is not None else None, flags=flags)
+            try:
+                picked = [id(x) for x in c.select(_debug_soup[0])]
+            except Exception as e:
+                picked = ['select raised', type(e).__name__, str(e)]
+            res = ('ok', c.selectors, picked)
+        except util.SelectorSyntaxError as e:
+            exc = e
+            res = ('err', type(e).__name__, str(e), e.line, e.col, e.context)
+        except RecursionError:
+            res = ('err', 'RecursionError')
+        except Exception as e:
+            res = ('err', type(e).__name__, str(e))
+    return res, exc
+
+
+def show_outcome(res):
+    return ['ok', repr(res[1])[:400], len(res[2])] if res[0] == 'ok' else list(res)
+
+
+def position_ok(e, texts):
+    """(b) for an error raised through the public entry point: the offset named in the message, the line, the column and the context describe
+    a position inside the pattern being parsed – the pattern itself or the text of the custom selector the error was raised for."""
+    m = re.search(r'position (\d+)', str(e).split('\n')[0])
+    if not m or e.line is None:
+        return None
+    off = int(m.group(1))
+    for t in texts:
+        pat = t.replace('\x00', '\ufffd')
+        if off <= len(pat) and (e.line, e.col) == oracle(pat, off) and caret_ok(e.context, pat, off, e.line, e.col):
+            return True
+    return False
+
+
+def later_token_error(pattern):
+    """Coverage only: does tokenizing the WHOLE pattern hit an offset where no token matches?  (offset or None)"""
+    try:
+        for _ in cp.CSSParser(pattern).selector_iter(pattern):
+            pass
+    except util.SelectorSyntaxError as e:
+        m = re.search(r'position (\d+)', str(e).split('\n')[0])
+        return int(m.group(1)) if m else None
+    return None
 
 
 class Alarm(Exception):
@@ -162,18 +291,67 @@ def run(chk):
             pretty_out.append(None)
         finally:
             signal.alarm(0)
-    # (d) DEBUG changes no result
-    debug_bad = []
-    for s in sels[:200 if quick else 3000]:
-        def comp(flags):
-            buf = io.StringIO()
-            with contextlib.redirect_stdout(buf):
-                try:
-                    return ('ok', cp.CSSParser(s, flags=flags).process_selectors())
-                except Exception as e:
-                    return ('err', type(e).__name__, str(e))
-        if comp(0) != comp(util.DEBUG):
-            debug_bad.append({'selector': s})
+    # (d) DEBUG changes no result: same compiled selectors and same elements selected, or the same exception (type, message, line, column,
+    # context).  Inputs: the valid selectors of (c); truncated / spliced selectors as in (b); texts with several mistakes of different kinds
+    # in one pattern (g_mixed), alone and together with custom-selector tables whose own texts are valid / wrong / mutually referring.
+    debug_bad, debug_pos_bad = [], []
+    dstat = {'inputs': 0, 'ok': 0, 'with_custom': 0, 'multi_line_error': 0, 'error_before_later_untokenizable_text': 0,
+             'error_inside_custom_text': 0, 'exception_types': {}}
+    dcases = [(s, None) for s in sels[:200 if quick else 3000]]
+    for _ in range(300 if quick else 6000):
+        s = spell.render(spell.g_selector(rng), rng, 1)
+        for _k in range(rng.choice([1, 2, 2, 3])):
+            cut = rng.randint(0, len(s))
+            s = s[:cut] + rng.choice([')', ',', '>', '(', '[', '"', ':', '!', '$', '.', '#', '\n', '\r\n  ', '::b', ':nope', '@x ', ',,']) + s[cut:]
+        dcases.append((s, None))
+    for _ in range(1500 if quick else 20000):
+        if rng.random() < 0.4:
+            custom = g_custom(rng)
+            dcases.append((g_mixed(rng, 0, list(custom) if rng.random() < 0.9 else CUSTOM_NAMES), custom))
+        else:
+            dcases.append((g_mixed(rng), None))
+    for k, (s, custom) in enumerate(dcases):
+        if k % 100 == 0:
+            sv.purge()
+        plain, e0 = debug_outcome(s, custom, 0)
+        dbg, e1 = debug_outcome(s, custom, util.DEBUG)
+        dstat['inputs'] += 1
+        dstat['with_custom'] += custom is not None
+        if plain[0] == 'ok':
+            dstat['ok'] += 1
+        else:
+            dstat['exception_types'][plain[1]] = dstat['exception_types'].get(plain[1], 0) + 1
+        if plain != dbg:
+            debug_bad.append({'selector': s, 'custom': custom, 'flags_0': show_outcome(plain), 'flags_DEBUG': show_outcome(dbg)})
+        for mode, e in (('0', e0), ('DEBUG', e1)):
+            if e is None:
+                continue
+            texts = [s] + list((custom or {}).values())
+            v = position_ok(e, texts)
+            if v is False:
+                debug_pos_bad.append({'pattern': s, 'custom': custom, 'flags': mode, 'message': str(e).split('\n')[0],
+                                      'py': [e.line, e.col, e.context]})
+            elif v and mode == '0':
+                err_total += 1
+                if e.line > 1:
+                    dstat['multi_line_error'] += 1
+                    nontriv += 1
+                if position_ok(e, [s]):
+                    m = re.search(r'position (\d+)', str(e).split('\n')[0])
+                    lt = later_token_error(s)
+                    if lt is not None and lt > int(m.group(1)):
+                        dstat['error_before_later_untokenizable_text'] += 1
+                else:
+                    dstat['error_inside_custom_text'] += 1
+        if plain[0] == 'err' and plain[1] != 'SelectorSyntaxError' and custom is None:
+            lt = later_token_error(s)
+            m = re.search(r'position (\d+)', plain[2]) if len(plain) > 2 else None
+            if lt is not None and m and lt > int(m.group(1)):
+                dstat['error_before_later_untokenizable_text'] += 1
+    sv.purge()
+    # report the shortest failing inputs
+    debug_bad.sort(key=lambda b: len(b['selector']) + sum(len(v) for v in (b['custom'] or {}).values()))
+    debug_pos_bad.sort(key=lambda b: len(b['pattern']) + sum(len(v) for v in (b['custom'] or {}).values()))
     corr_bad = []
     if driver_ok:
         for (p, i, ctx, line, col), r_ in zip(ctx_exp, driver.run(ctx_lines)):
@@ -189,7 +367,8 @@ def run(chk):
                    {'pretty_input': reprs[1][:80]}]
     chk.coverage.update({'context_patterns': len(pats), 'context_queries_model': len(ctx_lines), 'errors_raised': err_total,
                          'pretty_inputs': len(reprs), 'context_failures': len(py_bad), 'error_position_failures': len(bads),
-                         'pretty_failures': len(pretty_bad), 'debug_failures': len(debug_bad), 'py_vs_model_mismatches': len(corr_bad),
+                         'pretty_failures': len(pretty_bad), 'debug_failures': len(debug_bad), 'debug_error_position_failures': len(debug_pos_bad),
+                         'debug_inputs': dstat, 'py_vs_model_mismatches': len(corr_bad),
                          'exhaustive': True, 'exhaustive_scope': f'all strings over {{a, LF, CR}} up to length {L}, every offset'})
     for i, b in enumerate(py_bad[:3]):
         chk.violation(f'ctx{i}', {'what': 'get_pattern_context: wrong line / column / caret', **b}, concrete=True)
@@ -198,15 +377,17 @@ def run(chk):
     for i, b in enumerate(pretty_bad[:3]):
         chk.violation(f'pretty{i}', {'what': 'pretty printer', **b}, concrete=True)
     for i, b in enumerate(debug_bad[:2]):
-        chk.violation(f'debug{i}', {'what': 'DEBUG flag changes the compiled result', **b}, concrete=True)
+        chk.violation(f'debug{i}', {'what': 'DEBUG flag changes the result (compiled selectors / selected elements / exception raised)', **b}, concrete=True)
+    for i, b in enumerate(debug_pos_bad[:2]):
+        chk.violation(f'dpos{i}', {'what': 'SelectorSyntaxError position does not identify the offset (pattern or custom selector text)', **b}, concrete=True)
     if not (py_bad or bads or pretty_bad):
         for i, b in enumerate(corr_bad[:3]):
             chk.violation(f'corr{i}', {'correspondence': 'util.get_pattern_context / pretty ≡ Lean model', **b}, concrete=False)
-    if not proof_ok and not (py_bad or bads or pretty_bad or debug_bad or corr_bad):
+    if not proof_ok and not (py_bad or bads or pretty_bad or debug_bad or debug_pos_bad or corr_bad):
         chk.violation('proof', {'what': 'proof obligation no longer checks; no failing input found',
                                 'theorem_or_correspondence': 'SoupVerif.Properties.C20', 'detail': chk.notes.get('proof_broken')}, concrete=False)
     n = sum(len(p) + 1 for p in pats)
-    return chk.finish(rule=RULE, evaluations=n + err_total + len(reprs), distinct=nontriv)
+    return chk.finish(rule=RULE, evaluations=n + err_total + len(reprs) + 2 * dstat['inputs'], distinct=nontriv)
 
 
 def replay(chk, path):
@@ -215,6 +396,17 @@ def replay(chk, path):
         ctx, line, col = util.get_pattern_context(data['pattern'], data['offset'])
         ok = (line, col) == oracle(data['pattern'], data['offset']) and caret_ok(ctx, data['pattern'], data['offset'], line, col)
         print(json.dumps({'py': [line, col, ctx], 'ok': ok}))
+        if not ok:
+            print(f'VIOLATION property={PID} replay={path}')
+            return 1
+    elif 'flags_0' in data or 'flags' in data:
+        t = data.get('selector', data.get('pattern'))
+        custom = data.get('custom')
+        plain, e0 = debug_outcome(t, custom, 0)
+        dbg, e1 = debug_outcome(t, custom, util.DEBUG)
+        texts = [t] + list((custom or {}).values())
+        ok = plain == dbg and all(e is None or position_ok(e, texts) is not False for e in (e0, e1))
+        print(json.dumps({'flags_0': show_outcome(plain), 'flags_DEBUG': show_outcome(dbg), 'ok': ok}, default=repr))
         if not ok:
             print(f'VIOLATION property={PID} replay={path}')
             return 1
